@@ -92,6 +92,13 @@ _G = {}
 
 def _work(rng):
     """Pool worker: assemble, decode and evaluate cases[a:b] under every configuration."""
+    try:
+        return _work2(rng)
+    except SystemExit as e:      # never let a worker exit: multiprocessing would wait for its result forever
+        raise RuntimeError("worker aborted: %r" % (e,))
+
+
+def _work2(rng):
     a, b = rng
     cases = _G["cases"][a:b]
     cfgs = _G["cfgs"]
@@ -187,6 +194,8 @@ def run_block(rep, cases, cfgs, extra_check=None, note_outcome=True, validate_ta
             cases = [c for i, c in enumerate(cases) if i not in bad]
     n = len(cases)
     work = n * len(cfgs)
+    from . import build as _build
+    _build.hexec("plain")        # build in the parent: a build failure must end the check, not a pool worker (which would hang the pool)
     nw = 1 if work < 4000 else min(hexec.NPROC, max(1, work // 4000))
     _G.update(cases=cases, cfgs=cfgs, extra_check=extra_check, group_check=group_check,
               inner=max(1, hexec.NPROC // nw), fit_retry=fit_retry)
